@@ -134,6 +134,8 @@ class Executor:
         mapping: dict[str, ast.expr] = {}
 
         def stable(e: ast.expr) -> bool:
+            if isinstance(e, ast.Constant) and isinstance(e.value, (str, bool, int, type(None))):
+                return True  # a selector handed over as a literal: _leave(self, 'undo') ... getattr(ctx.states, how)()
             while isinstance(e, ast.Attribute):
                 e = e.value
             return isinstance(e, ast.Name) and e.id in ('self', 'ctx', 'cls')
@@ -160,8 +162,16 @@ class Executor:
             def visit_FunctionDef(self, n):
                 return n if n is not node else self.generic_visit(n)
             visit_Lambda = visit_AsyncFunctionDef = visit_FunctionDef
+        class GetAttr(ast.NodeTransformer):
+            """getattr(<e>, '<name>') -> <e>.<name>, once the name is a literal"""
+            def visit_Call(self, n):
+                self.generic_visit(n)
+                if isinstance(n.func, ast.Name) and n.func.id == 'getattr' and len(n.args) == 2 and not n.keywords \
+                        and isinstance(n.args[1], ast.Constant) and isinstance(n.args[1].value, str) and n.args[1].value.isidentifier():
+                    return ast.copy_location(ast.Attribute(value=n.args[0], attr=n.args[1].value, ctx=ast.Load()), n)
+                return n
         node = _copy.deepcopy(helper.node)
-        node.body = [Sub().visit(st) for st in node.body]
+        node.body = [GetAttr().visit(Sub().visit(st)) for st in node.body]
         ast.fix_missing_locations(node)
         clone = FuncInfo(helper.qualname, helper.module, node, helper.cls, helper.parent)
         object.__setattr__(clone, '_specialised_from', helper)
